@@ -2,7 +2,7 @@
    Django's Context layer stack, render ids and component_context_cache), deepening C01 / C03 / C05, which are decided
    against the lexically scoped reference renderer S (Core/Sem.v).  Proofs in Core/MechProofs.v.
    Every run also compares M with the implementation and M with S on generated programs (harness/c01m.py). *)
-From DJC Require Import Lib.Base Core.Syntax Core.Sem Core.Mech Core.MechProofs Core.MechDjango Core.MechIsoProv Core.MechPass.
+From DJC Require Import Lib.Base Core.Syntax Core.Sem Core.Mech Core.MechProofs Core.MechDjango Core.MechIsoProv Core.MechPass Core.MechFor.
 From DJC Require Gen.C01M.
 From Coq Require Import String.
 Local Open Scope string_scope.
@@ -103,7 +103,7 @@ Print Assumptions unfilled_slot_renders_own_default_mech.
    _partial - NOT covered by the proof (covered by the per-run comparison M vs S and M vs implementation only):
    django mode (see mech_refines_sem_django_partial below); {% provide %} / inject (see
    mech_refines_sem_isolated_provide_partial below); pass-through slots (see mech_refines_sem_isolated_passthrough_partial
-   below); {% for %}; the default= alias ({{ default }} SlotRef); slot tags and is_filled
+   below); {% for %} at template level (see mech_refines_sem_isolated_for_partial below); the default= alias ({{ default }} SlotRef); slot tags and is_filled
    tests written inside the body of a component tag (pass-through slots). *)
 Theorem mech_refines_sem_isolated_partial : forall p fuel,
   wf_prog p = true -> mout_of (mrender_prog fuel p) = embed (render_prog fuel p).
@@ -151,6 +151,20 @@ Theorem mech_refines_sem_isolated_passthrough_partial : forall p fuel,
 Proof. exact mech_refines_sem_isolated_passthrough_lemma. Qed.
 Print Assumptions mech_refines_sem_isolated_passthrough_partial.
 
+(* Isolated mode, the fragment WIDENED by {% for %} AT TEMPLATE LEVEL (wf_prog_for = wf_prog + loops over any
+   expression of the fragment - a page / data list variable - in page and component templates, also inside slot defaults,
+   if / with and other loops; a loop body may contain text, {{ x }} / {{ forloop.counter }}, if, with, nested loops and
+   slot tags (filled: the fill is rendered on the instance's outer Context, without the loop layer; unfilled: the default
+   content sees the loop variable and counter).  ForNode's single layer {forloop, x}, rewritten per iteration, = S's
+   per-iteration bindings of x and the counter.
+   _partial, NOT covered: a component tag inside a loop body (the isolated copy forwards the loop layer into the
+   component and fills re-capture it: C03's recorded deviations, M != S without a name condition), a loop inside the
+   body of a component tag (looped fills), and no combination with provide / pass-through slots. *)
+Theorem mech_refines_sem_isolated_for_partial : forall p fuel,
+  wf_prog_for p = true -> mout_of (mrender_prog fuel p) = embed (render_prog fuel p).
+Proof. exact mech_refines_sem_isolated_for_lemma. Qed.
+Print Assumptions mech_refines_sem_isolated_for_partial.
+
 (* ---------- non-vacuity ---------- *)
 (* a program of the fragment: nested components, a slot nested in another slot's default, a required slot, the default
    flag, slot data read through a data= alias, a with-bound dynamically named fill, a conditional fill, an implicit
@@ -182,6 +196,30 @@ Example refinement_premise_satisfiable :
   wf_prog ex_prog = true /\
   mout_of (mrender_prog 30 ex_prog) = MOk (s2n "P:{<Vfill:VaV<deepA-default[implicit]False>True>V}").
 Proof. vm_compute. split; reflexivity. Qed.
+
+(* loops: a page-level loop; a component template looping over its data list around forloop.counter, the loop variable,
+   a slot tag with slot data (filled by the page / unfilled: default content reads the loop variable and counter) and a
+   nested loop; after the loop forloop.counter is empty again.  The page's fill content does not see the loop variable. *)
+Definition ex_row : cdef :=
+  {| c_tpl := [TText (s2n "(");
+               TFor (s2n "it") (EVar (s2n "items"))
+                 [TOut ECounter; TText (s2n ":"); TOut (EVar (s2n "it"));
+                  TSlot (s2n "cell") false false [(s2n "k", EVar (s2n "it"))] [TText (s2n "="); TOut (EVar (s2n "it")); TOut ECounter];
+                  TFor (s2n "j") (EVar (s2n "items")) [TOut ECounter]; TText (s2n ";")];
+               TSlot (s2n "foot") false false [] [TText (s2n "nofoot")]; TOut ECounter; TText (s2n ")")];
+     c_data := [(s2n "items", DKw (s2n "xs"))] |}.
+Definition ex_for (fills : list tpl) : prog :=
+  {| p_lib := [(s2n "row", ex_row)];
+     p_page := [TFor (s2n "p") (EVar (s2n "ps")) [TText (s2n "p"); TOut ECounter];
+                TComp (s2n "row") [(s2n "xs", EVar (s2n "ps"))] false fills];
+     p_ctx := [(s2n "ps", VList [VStr (s2n "a"); VStr (s2n "b")])]; p_mode := Isolated |}.
+Definition ex_for_fill : list tpl :=
+  [TFill (EStr (s2n "cell")) (Some (s2n "d")) None [TText (s2n "["); TOut (EDot (s2n "d") (s2n "k")); TOut (EVar (s2n "it")); TText (s2n "]")]].
+Example for_refinement_premise_satisfiable :
+  wf_prog_for (ex_for ex_for_fill) = true /\ wf_prog (ex_for ex_for_fill) = false /\
+  mout_of (mrender_prog 30 (ex_for ex_for_fill)) = MOk (s2n "p1p2(1:a[a]12;2:b[b]12;nofoot)") /\
+  wf_prog_for (ex_for []) = true /\ mout_of (mrender_prog 30 (ex_for [])) = MOk (s2n "p1p2(1:a=a112;2:b=b212;nofoot)").
+Proof. vm_compute. repeat split; reflexivity. Qed.
 
 (* pass-through slots: component mid fills leaf's slot with content that contains mid's OWN slot "t" (default-flagged,
    slot data taken from leaf's slot data, default content with a nested slot "u") and reads is_filled.u; a second leaf tag
